@@ -64,7 +64,7 @@ func init() {
 				c.Check("C18/alive/checks-claimed-addr", "the allow-list is consulted for the claimed address itself", a.fn.Decl.Pos(), false, "IPAllowed is applied to "+strings.TrimPrefix(v, "ipOK:")+" instead of the claim's address")
 			}
 		}
-		ast.Inspect(a.fn.Decl.Body, func(n ast.Node) bool {
+		inspectFn(a.fn, func(n ast.Node) bool {
 			if call, ok := n.(*ast.CallExpr); ok {
 				if f := p.Callee(call); f != nil && f.Pkg() == p.Types && core.QualName(f) == "Config.IPAllowed" {
 					nip++
@@ -190,7 +190,7 @@ func checkIPAllowed(c *Ctx) {
 	c.Floor("nil returns of the allow-list predicate", n, 2)
 	// the Contains call ranges over the configured list with the function's argument
 	okRange := false
-	ast.Inspect(fn.Decl.Body, func(nd ast.Node) bool {
+	inspectFn(fn, func(nd ast.Node) bool {
 		rs, ok := nd.(*ast.RangeStmt)
 		if !ok || p.FieldOwner(rs.X) != "Config.CIDRsAllowed" {
 			return true
